@@ -136,3 +136,43 @@ Proof.
     cbn [map]. apply tb_frame_str_std. }
   rewrite E, str_eqb_refl. reflexivity.
 Qed.
+
+(* ---- inside the recorded guard (a display-time suggestion, a failing __str__) the model's behaviour
+   is exactly what [known] describes: the standard text with tbutils' own message.  So a run can
+   only ever report such a case as the recorded finding, never as something else, as long as the
+   implementation agrees with the model. ------------------------------------------------------------- *)
+Lemma hint_shown e : hint_of e <> None -> ex_shown e = exc_text (std_type e) (std_msg e).
+Proof.
+  unfold std_msg, hint_of. destruct (str_eqb (ex_shown e) (exc_text (std_type e) (std_base_msg e))) eqn:E.
+  - intros _. apply str_eqb_eq in E. rewrite app_nil_r. exact E.
+  - destruct (drop_prefix (std_type e ++ L_colon ++ std_base_msg e) (ex_shown e)) as [h|] eqn:D; [|intro H; contradiction].
+    destruct (startswith L_hint h) eqn:S; [|intro H; contradiction]. intros _.
+    assert (Sh : ex_shown e = (std_type e ++ L_colon ++ std_base_msg e) ++ h).
+    { clear - D. revert D. generalize (std_type e ++ L_colon ++ std_base_msg e) as p. generalize (ex_shown e) as t.
+      intros t p. revert t. induction p as [|a p IH]; intros t D; cbn [drop_prefix] in D.
+      - injection D as ->. reflexivity.
+      - destruct t as [|b t]; [discriminate|]. destruct (a =? b) eqn:Eab; [|discriminate].
+        apply N.eqb_eq in Eab. subst b. cbn [app]. f_equal. apply IH. exact D. }
+    rewrite Sh. unfold exc_text. destruct (std_base_msg e ++ h) eqn:Em.
+    + destruct h; [discriminate|]. destruct (std_base_msg e); discriminate.
+    + cbn [is_nil]. rewrite <- Em, <- !app_assoc. reflexivity.
+Qed.
+
+Theorem ei_known fs e :
+  plain_exc e = false -> hint_of e <> None ->
+  let v := ei_verdict fs e (std_text (std_tb P fs e)) (model_ei fs e) in
+  fst (fst v) = true /\ snd v = true.
+Proof.
+  intros He Hh. cbv zeta. unfold ei_verdict. cbn [std_tb t_frames t_type t_msg].
+  rewrite He, ei_obs_eqb_refl, <- (hint_shown e Hh), !str_eqb_refl.
+  destruct (hint_of e) as [h|] eqn:EH; [|contradiction]. cbn [is_some negb andb fst snd].
+  split; [reflexivity|].
+  pose proof (ei_text_std P fs e) as FMT. unfold ei_text, ei_tb in FMT.
+  unfold ei_clauses, model_ei. cbn [eo_frames eo_type eo_msg eo_fmt eo_only eo_more t_type t_msg].
+  rewrite frames_match_model, (ei_type_std e), !str_eqb_refl. cbn [andb].
+  rewrite (ei_type_std e) in FMT. rewrite FMT, str_eqb_refl. cbn [andb].
+  unfold ei_formatted in FMT.
+  change (ei_exc_only (std_type e) (ei_msg e)) with (exc_text (std_type e) (ei_msg e)) in *.
+  rewrite FMT, !str_eqb_refl. cbn [andb].
+  change M_nl with NL. rewrite app_assoc, FMT. apply str_eqb_refl.
+Qed.
